@@ -45,7 +45,11 @@ def warping_paths{{ suffix }}(
     req_length = dtaidistancec_dtw.dtw_settings_wps_length(len(s1), len(s2), &settings._settings)
     req_width = dtaidistancec_dtw.dtw_settings_wps_width(len(s1), len(s2), &settings._settings)
     shape = (1, req_length)
-    if req_length == dtw_length and req_width == dtw.shape[1]:
+    cdef dtaidistancec_dtw.DTWWps wps_parts = dtaidistancec_dtw.dtw_wps_parts(len(s1), len(s2), &settings._settings)
+    # The given matrix can only serve as the compact datastructure if no row of the compact
+    # layout is shifted, thus if the window never leaves the first column (regions C and D are empty)
+    no_compact = (req_length == dtw_length and req_width == dtw.shape[1] and wps_parts.ri2 == len(s1))
+    if no_compact:
         # No compact WPS array is required
         wps = dtw
     else:
@@ -58,7 +62,7 @@ def warping_paths{{ suffix }}(
     cdef seq_t [:, :] wps_view = wps
     cdef seq_t d
     {{ select_c_fn("wps_view")}}
-    if not (req_length == dtw_length and req_width == dtw.shape[1]):
+    if not no_compact:
         {%- if "affinity" in suffix %}
         dtaidistancec_dtw.dtw_expand_wps_affinity(&wps_view[0,0], &dtw[0, 0], len(s1), len(s2), &settings._settings)
         {%- else %}
